@@ -259,13 +259,27 @@ func ReadPatchString(s string) (Diff, error) {
 			i := len(diff) - 1
 			if diff[i].Path.JsonNode().Equals(e.Path.JsonNode()) && !hasContext(e) {
 				diff[i].Remove = append(diff[i].Remove, e.Remove...)
-				// Must be done in reverse order
-				diff[i].Add = append(e.Add, diff[i].Add...)
+				if isAppend(e.Path) {
+					// Appends ("-") keep their order
+					diff[i].Add = append(diff[i].Add, e.Add...)
+				} else {
+					// Must be done in reverse order
+					diff[i].Add = append(e.Add, diff[i].Add...)
+				}
 			} else {
 				diff = append(diff, e)
 			}
 		}
 	}
+}
+
+// isAppend reports whether a path addresses the end of an array ("-").
+func isAppend(p Path) bool {
+	if len(p) == 0 {
+		return false
+	}
+	i, ok := p[len(p)-1].(PathIndex)
+	return ok && i == -1
 }
 
 // hasContext reports whether a diff element carries its own before or
